@@ -1,4 +1,5 @@
 import Cirbo.Proofs.Bench
+import Cirbo.Proofs.BenchDoc
 /-!
 # C11 — Bench text round-trips and the parser is faithful
 
@@ -7,7 +8,8 @@ import Cirbo.Proofs.Bench
 -- OBLIGATION: c11_operand_list_roundtrip
 -- OBLIGATION: c11_gate_line_roundtrip
 -- OBLIGATION: c11_declaration_lines
--- PARTIAL: the document-level assembly (splitting format_circuit's text into its lines and folding parseLine over them, giving from_bench_string(format_circuit(c)) == c for whole circuits) and the layout-independence theorem (random spaces/case/order/comments) are not proved yet; both are exercised by exact correspondence of parser and printer models with the code and by the implementation round-trip / layout search on every run.
+-- OBLIGATION: c11_document_roundtrip
+-- PARTIAL: the round trip is proved for whole documents (c11_document_roundtrip). The layout-independence theorem for arbitrary hand-written text (random spaces / letter case / line order / comments / blank lines) is not proved; it is exercised by exact correspondence of the parser model with the code on such texts and by the layout search on every run. Errors for malformed text are decided by correspondence.
 -/
 namespace Cirbo
 open GateType
@@ -61,10 +63,21 @@ def exB : Circuit :=
     blocks := [] }
 example : (parseBench (formatCircuit exB)).toOption = some exB := by decide
 
+/-- **`from_bench_string(format_circuit(c)) == c` for whole circuits**: for every well-formed circuit
+whose labels are identifiers and whose gate arities the reader accepts, the printed document — input
+declarations, blank line, gate lines, blank line, output declarations, any section possibly empty — is
+split into its lines and parsed back to a circuit with the same inputs in the same order, the same
+outputs in the same order (repetitions included) and the same gate definitions. -/
+theorem c11_document_roundtrip {c : Circuit} (hw : WF c) (hp : Printable c) :
+    ∃ c', parseBench (formatCircuit c) = .ok c' ∧ c'.inputs = c.inputs ∧ c'.outputs = c.outputs ∧
+      c'.gates.Perm c.gates :=
+  bench_roundtrip hw hp
+
 #print axioms c11_keywords_roundtrip
 #print axioms c11_gate_line_never_a_declaration
 #print axioms c11_operand_list_roundtrip
 #print axioms c11_gate_line_roundtrip
 #print axioms c11_declaration_lines
+#print axioms c11_document_roundtrip
 
 end Cirbo
